@@ -73,9 +73,19 @@ func gatedUse(p *an.Prog, G map[*ssa.Function]bool, site ssa.Instruction, depth 
 }
 
 // ruleKeyUseGated is shared by C03 and C05.
-func ruleKeyUseGated(c *report.Ctx) {
+// signingOnly restricts the sites to the code reachable from KeystoreManager.SignHash (C03 is about signing;
+// C05 checks every use of private material).
+func ruleKeyUseGated(c *report.Ctx, signingOnly bool) {
 	p := c.P
-	c.Rule("passphrase-dominates-key-use", "ECDSA signing, private-key derivation and every Decrypt in the keystore run only after a passphrase check succeeded on that path", 10)
+	floor := 10
+	var scope map[*ssa.Function]bool
+	if signingOnly {
+		floor = 4
+		if sh := fn(c, pkgKeystore, "KeystoreManager", "SignHash"); sh != nil {
+			scope, _ = p.Reach([]*ssa.Function{sh}, an.ReachOpts{})
+		}
+	}
+	c.Rule("passphrase-dominates-key-use", "ECDSA signing, private-key derivation and every Decrypt in the keystore run only after a passphrase check succeeded on that path", floor)
 	G := passphraseGates(c)
 	var gnames []string
 	for g := range G {
@@ -93,6 +103,9 @@ func ruleKeyUseGated(c *report.Ctx) {
 	for _, f := range p.ModFuncs {
 		pk := an.FuncPkg(f)
 		if pk == nil || pk.Path() != pkgKeystore {
+			continue
+		}
+		if scope != nil && !scope[f] {
 			continue
 		}
 		cnt := map[string]int{}
@@ -136,7 +149,7 @@ func ruleKeyUseGated(c *report.Ctx) {
 
 func runC03(c *report.Ctx) {
 	p := c.P
-	ruleKeyUseGated(c)
+	ruleKeyUseGated(c, true)
 
 	// ---- (2) unlock scoped ---------------------------------------------------------------------------
 	ruleUnlockScoped(c)
